@@ -614,6 +614,19 @@ func (c *Conn) Write(r *Ctx) {
 		r.resolve(c.closeErr())
 
 		return
+	case err := <-r.Err:
+		// The queue is full and the request has been given up meanwhile (its
+		// timer is the only thing that can resolve it before it is queued). A
+		// write loop stuck in a socket write takes nothing off the queue, and
+		// the caller was promised an answer within MaxResponseTime, not an
+		// answer once there is room. The verdict goes back where RoundTrip
+		// reads it.
+		select {
+		case r.Err <- err:
+		default:
+		}
+
+		return
 	}
 
 	// The write loop may have gone away between the send and now, in which case
@@ -868,6 +881,28 @@ func (c *Conn) lockWrites() {
 	}
 }
 
+// controlWriteTimeout is how long the write of a frame that belongs to no
+// request (a PING or its acknowledgement, a SETTINGS acknowledgement, a
+// WINDOW_UPDATE, a RST_STREAM) may take. These are a few octets each: one that
+// cannot be written in this time is going to a peer that has stopped reading.
+const controlWriteTimeout = 10 * time.Second
+
+// limitControlWrite puts controlWriteTimeout on the write that follows and hands
+// back what takes it off again. A request's own writes are bounded by whoever
+// waits for the request (boundWrite); a control frame has nobody waiting, and
+// the check for unanswered PINGs runs on the very loop that would be stuck in
+// the write, so without a limit of its own a peer that stops reading keeps the
+// write loop, and every request queued behind it, for good.
+func (c *Conn) limitControlWrite() func() {
+	if c.c == nil {
+		return func() {}
+	}
+
+	_ = c.c.SetWriteDeadline(time.Now().Add(controlWriteTimeout))
+
+	return func() { _ = c.c.SetWriteDeadline(time.Time{}) }
+}
+
 // flushOut writes the frames that are queued right now.
 func (c *Conn) flushOut() error {
 	for {
@@ -889,6 +924,8 @@ func (c *Conn) flushOut() error {
 func (c *Conn) writeFrame(fr *FrameHeader) error {
 	c.lockWrites()
 	defer c.bwLck.Unlock()
+
+	defer c.limitControlWrite()()
 
 	_, err := fr.WriteTo(c.bw)
 	if err == nil {
@@ -1927,6 +1964,8 @@ func (c *Conn) writePing() error {
 
 	c.lockWrites()
 	defer c.bwLck.Unlock()
+
+	defer c.limitControlWrite()()
 
 	_, err := fr.WriteTo(c.bw)
 	if err == nil {
